@@ -152,6 +152,16 @@ def corrupt_fields(lines: List[Dict[str, Any]]) -> List[Tuple[str, bool, str]]:
     cases.append(("outcome dictionary misses a measured subsystem", "OutcomeKeys", c_keys,
                   lambda ln: ln["ev"]["a"] == "measure" and ln["ev"]["res"] == "ok" and len(ln["ev"]["keys"]) >= 1))
 
+    def c_cut(ln):
+        ln["ev"]["mdl"] = {"k": "cut", "tail": 20000, "dev": 100}
+    cases.append(("ideal result has 2e-5 of its population beyond the chosen cutoff", "CutoffAdequate", c_cut,
+                  lambda ln: ln["ev"]["res"] == "ok" and ln["ev"]["a"] == "apply_operation"))
+
+    def c_chan(ln):
+        ln["ev"]["mdl"] = {"k": "kraus", "tail": 0, "dev": 20000}
+    cases.append(("state after a channel is 2e-5 away from sum K rho K^dagger", "ChannelMatchesModel", c_chan,
+                  lambda ln: ln["ev"]["res"] == "ok"))
+
     for what, clause, mutate, pred in cases:
         try:
             ln = find(pred)
